@@ -1192,22 +1192,25 @@ void AsyncSim::check_outgoing(bool final) {
 			else if (!ri.mac_ok || ri.mac_alg != e.cfg.mac_alg) K.fail("C06", "request-mac-wrong", where, "request MAC does not verify under the endpoint key / configured algorithm (alg %d)", ri.mac_alg);
 			if (ri.login != e.cfg.login) K.fail("C07", "request-login-changed", where, "login id on the wire differs from the configured one");
 			if (ri.has_id) {
-				bool known = false;
+				// ids repeat once the id generation has wrapped, and HA sub-requests are recognised by content only: the wire
+				// request is fine if one of the submitted requests it can stand for has exactly its content
+				bool known = false, same = false, level_same = false;
 				for (auto &r : recs) {
 					bool match = false;
 					if (!ha) { for (auto &a : r->att) if (a.id == ri.id) match = true; }
 					else match = svc_ext ? (ri.has_agg_time && ri.agg_time == r->agg_time) : (ri.has_hash && ri.hash == r->hash);
-					if (!match) continue;
+					if (!match || r->is_conf) continue;
 					known = true;
 					if (!svc_ext) {
-						if (ri.hash != r->hash || (ri.has_level ? ri.level : 0) != r->level) {
-							if (!ha) K.fail("C07", "request-content-changed", where, "request 0x%llx on the wire carries another hash/level than submitted", (unsigned long long)ri.id);
-							else if ((ri.has_level ? ri.level : 0) != r->level) K.fail("C07", "request-content-changed", where, "HA sub-request carries another level than submitted");
-						}
-					} else if (ri.agg_time != r->agg_time || ri.has_pub_time != r->has_pub || (r->has_pub && ri.pub_time != r->pub_time)) {
-						K.fail("C08", "request-content-changed", where, "extend request on the wire carries other times than submitted");
-					}
-					break;
+						if (ri.hash == r->hash && (ri.has_level ? ri.level : 0) == r->level) same = true;
+						if ((ri.has_level ? ri.level : 0) == r->level) level_same = true;
+					} else if (ri.agg_time == r->agg_time && ri.has_pub_time == r->has_pub && (!r->has_pub || ri.pub_time == r->pub_time)) same = true;
+				}
+				if (known && !same) {
+					if (!svc_ext) {
+						if (!ha) K.fail("C07", "request-content-changed", where, "request 0x%llx on the wire carries another hash/level than submitted", (unsigned long long)ri.id);
+						else if (!level_same) K.fail("C07", "request-content-changed", where, "HA sub-request carries another level than submitted");
+					} else K.fail("C08", "request-content-changed", where, "extend request on the wire carries other times than submitted");
 				}
 				if (!known) K.fail("C14", "unknown-request-on-wire", where, "request id 0x%llx on the wire was never submitted", (unsigned long long)ri.id);
 				order.push_back(ri.id);
